@@ -101,6 +101,12 @@ func (l *Linter) lintFunctionArguments(fn *context.BuiltinFunction, calledFn fun
 					l.Error(FunctionArgumentTypeMismatch(
 						calledFn.meta, calledFn.name, i+1, v, arg,
 					).Match(FUNCTION_ARGUMENT_TYPE).Ref(fn.Reference))
+				} else if v == types.StringType && isLiteralExpression(calledFn.arguments[i]) &&
+					expectType(arg, types.IntegerType, types.FloatType, types.RTimeType) {
+					// Only a variable converts to STRING, as in an assignment: std.strlen(5) is an error
+					l.Error(FunctionArgumentTypeMismatch(
+						calledFn.meta, calledFn.name, i+1, v, arg,
+					).Match(FUNCTION_ARGUMENT_TYPE).Ref(fn.Reference))
 				}
 			} else {
 				// Otherwise, strict type check
